@@ -20,7 +20,7 @@ use crate::run::small_addr;
 use crate::Args;
 use essential_asm::Op;
 use essential_check::solution::{
-    check_and_compute_solution_set_two_pass, CheckPredicateConfig, PredicateError, PredicatesError,
+    check_and_compute_solution_set_two_pass, check_set_predicates, CheckPredicateConfig, PredicateError, PredicatesError, RunMode,
 };
 use essential_types::{
     predicate::{Node, Predicate, Program},
@@ -262,6 +262,49 @@ pub fn run_case_with(case: &Case, delay: Option<Arc<dyn Fn(&[i64]) -> std::time:
     RunResult { obs, marks, reads, content_addr }
 }
 
+/// The other way to run a complete check: `check_set_predicates` in Outputs mode and then in
+/// Checks mode over one shared cache, with pre and post views supplied by the caller.  Only used
+/// for cases without any mutation (declared or computed), where post-state = pre-state.
+pub fn run_case_modes(case: &Case) -> RunResult {
+    let (set, predicates, programs) = build(case);
+    let log = Arc::new(Mutex::new(vec![]));
+    let pre = pre_view(case, log.clone());
+    let mut post = pre_view(case, log.clone());
+    post.tag = "post";
+    let content_addr = essential_hash::content_addr(&set).0;
+    let cfg = Arc::new(CheckPredicateConfig { collect_all_failures: case.all });
+    let preds = Arc::new(predicates);
+    let progs = Arc::new(programs);
+    let set = Arc::new(set);
+    let nsol = set.solutions.len();
+    let res = std::panic::catch_unwind(std::panic::AssertUnwindSafe(|| {
+        let mut cache = HashMap::new();
+        let state = (pre.clone(), post.clone());
+        let o1 = check_set_predicates(&state, set.clone(), preds.clone(), progs.clone(), cfg.clone(), RunMode::Outputs, &mut cache)?;
+        let o2 = check_set_predicates(&state, set.clone(), preds.clone(), progs.clone(), cfg.clone(), RunMode::Checks, &mut cache)?;
+        Ok::<_, PredicatesError<crate::obs::StateErr>>((o1.gas.saturating_add(o2.gas), o1.data.iter().chain(o2.data.iter()).map(|d| d.data.len()).sum::<usize>()))
+    }));
+    let obs = match res {
+        Err(_) => Obs::Panic("panic".into()),
+        Ok(Ok((gas, _ndata))) => Obs::Ok { gas, muts: vec![vec![]; nsol] },
+        Ok(Err(PredicatesError::Failed(errs))) => Obs::Failed(
+            errs.0
+                .iter()
+                .map(|(s, e)| match e {
+                    PredicateError::InvalidNodeEdges(n) => (*s, "graph", vec![*n]),
+                    PredicateError::ProgramErrors(pe) => (*s, "prog", pe.verif_node_indices()),
+                    PredicateError::ConstraintsUnsatisfied(u) => (*s, "unsat", u.0.clone()),
+                    PredicateError::Mutations(_) => (*s, "mut", vec![]),
+                })
+                .collect(),
+        ),
+        Ok(Err(e)) => Obs::Other(format!("{e:?}").chars().take(60).collect()),
+    };
+    let reads: Vec<Read> = std::mem::take(&mut *log.lock().unwrap());
+    let marks = reads.iter().filter(|r| r.n == 0 && r.key.last() == Some(&TAG)).map(|r| r.key.clone()).collect();
+    RunResult { obs, marks, reads, content_addr }
+}
+
 // ---------------------------------------------------------------------------------------------
 // Events
 
@@ -330,12 +373,17 @@ pub fn emit_result(b: &mut Batcher, label: &str, case: &Case, r: RunResult) -> R
         }
         _ => true,
     };
+    let accepted = {
+        let (set, _, _) = build(case);
+        essential_check::solution::check_set(&set).is_ok()
+    };
     let ev = J::O(vec![
         ("e", js("chk")),
         ("label", js(label)),
         ("case", case_json(case)),
         ("obs", obs_json(&r.obs)),
         ("revalid", J::B(revalid)),
+        ("accepted", J::B(accepted)),
         ("marks", J::A(r.marks.iter().map(|m| jw(m)).collect())),
     ]);
     match &r.obs {
@@ -415,6 +463,7 @@ pub fn main(args: &Args) -> i32 {
     let mut rng = SmallRng::seed_from_u64(args.seed ^ 0xC4EC ^ (args.shard.0 << 24));
     match mode.as_str() {
         "exh" => exh(args, &mut b),
+        "dag4" => dag4(args, &mut b),
         "rand" => rand_cases(args, &mut b, &mut rng),
         "overlay" => overlay(args, &mut b, &mut rng),
         "perm" => perm(args, &mut b, &mut rng),
@@ -628,6 +677,25 @@ fn rand_cases(args: &Args, b: &mut Batcher, rng: &mut SmallRng) {
         let pre = vec![(1001, vec![0], vec![11]), (1001, vec![1], vec![12, 13]), (1001, vec![i64::MAX], vec![14]), (1101, vec![0], vec![15]), (1001, vec![0, i64::MAX], vec![16])];
         let case = Case { sols, preds, progs, pre, all: rng.gen_bool(0.5) };
         emit(b, &format!("rand/{}/{i}", args.shard.0), &case);
+        // mutation-free variant through both entry points (two-pass, and the two run modes called
+        // in sequence over a shared cache)
+        if i % 3 == 0 {
+            let mut c2 = case.clone();
+            for s in c2.sols.iter_mut() {
+                s.decl.clear();
+            }
+            for p in c2.progs.iter_mut() {
+                // a data output ends in PUSH 2: make it an ordinary satisfied leaf
+                if let Some(last) = p.ops.last_mut() {
+                    if *last == push(2) {
+                        *last = push(1);
+                    }
+                }
+            }
+            emit(b, &format!("rand2p/{}/{i}", args.shard.0), &c2);
+            let r = run_case_modes(&c2);
+            emit_result(b, &format!("randmodes/{}/{i}", args.shard.0), &c2, r);
+        }
     }
 }
 
@@ -773,6 +841,10 @@ fn perm(args: &Args, b: &mut Batcher, rng: &mut SmallRng) {
                 Obs::Failed(_) => "failed".to_string(),
                 other => format!("{other:?}"),
             };
+            // what the post-state readers saw must not depend on the order either
+            let mut seen: Vec<Vec<i64>> = r.marks.clone();
+            seen.sort();
+            let norm = format!("{norm} saw={seen:?}");
             let (set, _, _) = build(&c);
             let valid = essential_check::solution::check_set(&set).is_ok();
             results.push((norm, r.content_addr, valid));
@@ -879,6 +951,16 @@ fn sched(args: &Args, b: &mut Batcher, rng: &mut SmallRng) {
             }
             let pred = PredD { nodes: nodes.clone(), edges };
             let mut p = pred.clone();
+            // every third case: two roots (or two leaves) of this solution fail
+            let force_fail: Vec<usize> = if i % 3 == 0 && s == 0 {
+                let pool = if rng.gen_bool(0.5) { rids } else { lids };
+                let mut v: Vec<usize> = pool.to_vec();
+                v.shuffle(rng);
+                v.truncate(2);
+                v
+            } else {
+                vec![]
+            };
             for k in 0..n {
                 let leaf = lids.contains(&k);
                 let mut spec = NodeSpec { tick: true, ..Default::default() };
@@ -889,7 +971,10 @@ fn sched(args: &Args, b: &mut Batcher, rng: &mut SmallRng) {
                     e.extend([by("DUP"), push(1), by("ADD"), by("ALOC"), by("POP"), by("COME")]);
                     spec.extra = e;
                 }
-                if leaf {
+                if force_fail.contains(&k) {
+                    // two tasks of one level fail: which one is reported must not depend on who finishes first
+                    if leaf { spec.leaf = Leaf::Error } else { spec.fail = true }
+                } else if leaf {
                     spec.leaf = match rng.gen_range(0..24) {
                         0 => Leaf::False,
                         1 => Leaf::Error,
@@ -967,5 +1052,67 @@ pub fn case_from_raw(v: &serde_json::Value) -> Case {
         }).collect(),
         pre: v["pre"].as_array().unwrap().iter().map(|e| (e[0].as_i64().unwrap(), ws(&e[1]), ws(&e[2]))).collect(),
         all: v["all"].as_bool().unwrap_or(false),
+    }
+}
+
+
+/// C01: every DAG on 4 labelled nodes (543 graphs - all shapes under all 24 numberings), each with
+/// a post-state read placed on every node in turn (quick: two placements per graph): exercises the
+/// mix of per-pass and cross-pass cached parents for every relative numbering.
+fn dag4(args: &Args, b: &mut Batcher) {
+    let mut cnt = 0u64;
+    let pairs: Vec<(usize, usize)> = (0..4).flat_map(|a| (0..4).filter(move |c| *c != a).map(move |c| (a, c))).collect();
+    for mask in 0u32..(1 << pairs.len()) {
+        let es: Vec<(usize, usize)> = pairs.iter().enumerate().filter(|(i, _)| mask & (1 << i) != 0).map(|(_, p)| *p).collect();
+        // acyclic?
+        let mut indeg = [0usize; 4];
+        for (_, c) in &es {
+            indeg[*c] += 1;
+        }
+        let mut left: Vec<usize> = (0..4).collect();
+        let mut ok = true;
+        while !left.is_empty() {
+            match left.iter().position(|n| indeg[*n] == 0) {
+                None => {
+                    ok = false;
+                    break;
+                }
+                Some(i) => {
+                    let n = left.remove(i);
+                    for (a, c) in &es {
+                        if *a == n {
+                            indeg[*c] -= 1;
+                        }
+                    }
+                }
+            }
+        }
+        if !ok {
+            continue;
+        }
+        let mut nodes = vec![];
+        let mut edges: Vec<u16> = vec![];
+        for n in 0..4 {
+            let ch: Vec<u16> = es.iter().filter(|(a, _)| *a == n).map(|(_, c)| *c as u16).collect();
+            if ch.is_empty() {
+                nodes.push((LEAF, 0usize));
+            } else {
+                nodes.push((edges.len() as u16, 0));
+                edges.extend(ch);
+            }
+        }
+        let pred = PredD { nodes, edges };
+        for postn in 0..4usize {
+            if !mine(args, &mut cnt) {
+                continue;
+            }
+            if !args.thorough && (postn + mask as usize) % 2 != 0 {
+                continue;
+            }
+            let mut specs: Vec<NodeSpec> = (0..4).map(|_| NodeSpec::default()).collect();
+            specs[postn].reads.push(read(true, None, &[7], 1));
+            let case = single_case(pred.clone(), &specs, mask % 2 == 0, false, vec![(vec![7], vec![70])], vec![(1001, vec![7], vec![1])]);
+            emit(b, &format!("dag4/{mask}/post{postn}"), &case);
+        }
     }
 }
